@@ -144,3 +144,93 @@ register(
             reg_q.q_suite("queue", 150, 4000, [reg_q.V("single", 0, 0, 0, 0)], [reg_q.V("single", 0, 0, 0, 0), reg_q.V("multi", 1, 1, 1, 0)],
                           rule="", nontrivial=reg_q.nt_queue)],
 )
+
+
+import suite_concl  # noqa: E402
+
+
+def concl_suite(ctx, search=False):
+    quick = ctx.quick()
+    ok, exe, log = vlib.build_harness(src="conc_cl.cpp", out_name="conc_cl")
+    ctx.oblige("harness conc_cl builds from /repo/include", ok, log[-2000:])
+    if not ok:
+        return
+    ctx.rule = ("random programs of 2-3 threads x 1-3 calls (append / prepend / insert before a shared handle / remove of shared handles / ownsHandle / empty / invoke) on one CallbackList with "
+                "0-3 callbacks attached beforehand, each under seeded random schedules of the baton scheduler (every micro-step of Conc/CList.lean is a scheduling point); the recorded history is "
+                "checked for linearizability by brute force, the final list forwards/backwards, the visit rule; distinct = distinct global step order; non-trivial = at least 3 thread switches")
+    rng = random.Random("%d/C03" % ctx.seed)
+    nprog = (120 if quick else 1500) * (3 if search else 1)
+    nsched = 10 if quick else 40
+    runs = []
+    for i in range(nprog):
+        nsetup = rng.randint(0, 3)
+        progs = suite_concl.gen_program(rng, nsetup)
+        for k in range(nsched):
+            runs.append(("C03_%d_%d_%d" % (ctx.seed, i, k), rng.randrange(1 << 30), nsetup, progs))
+    B = 500
+    nfail = 0
+    for off in range(0, len(runs), B):
+        chunk = runs[off:off + B]
+        text = "".join(suite_concl.run_text(*r) for r in chunk)
+        rc, out, err = vlib.run_harness(exe, text, timeout=600)
+        mtext = ""
+        for name, seed, nsetup, progs in chunk:
+            sec = out.get(name)
+            if sec is None:
+                continue
+            mtext += suite_concl.run_text(name, seed, nsetup, progs) + "\n".join(l for l in sec if l.startswith("step ")) + "\n"
+        rcm, mout, errm = vlib.run_driver("concl", mtext, timeout=900)
+        for name, seed, nsetup, progs in chunk:
+            ctx.cov["evaluations"] += 1
+            script = suite_concl.run_text(name, seed, nsetup, progs)
+            sec = out.get(name)
+            if sec is None:
+                nfail += 1
+                if nfail <= 3:
+                    ctx.fail("violation", "implementation crashed / hung before this run finished (rc=%s): %s" % (rc, err[-800:]), script, "conc_cl")
+                continue
+            di = suite_concl.parse(sec)
+            why = suite_concl.impl_oracles(nsetup, progs, di)
+            sched = "# schedule (global order of the performed micro-steps):\n" + "\n".join("# " + l for l in di["steps"])
+            if why:
+                nfail += 1
+                if nfail <= 3:
+                    ctx.fail("violation", why, script + sched, "conc_cl", "\n".join(l for l in sec if not l.startswith("step") and not l.startswith("note")))
+                continue
+            dm = suite_concl.parse(mout.get(name, []))
+            diff = None
+            if dm["mismatch"]:
+                diff = dm["mismatch"][0]
+            else:
+                for key in ("rets", "visits", "final", "back"):
+                    if di[key] != dm[key]:
+                        diff = "%s: implementation %r, model %r" % (key, di[key], dm[key])
+                        break
+            if diff:
+                nfail += 1
+                if nfail <= 3:
+                    ctx.fail("correspondence", diff, script + sched, "conc_cl")
+                continue
+            ctx.cov["traces_validated"] += 1
+            ctx.dist["steps"] += len(di["steps"])
+            preempt = sum(1 for a, b in zip(di["steps"], di["steps"][1:]) if a.split()[1] != b.split()[1])
+            if preempt >= 3:
+                ctx.nontrivial_keys.add(hashlib.sha1("\n".join(di["steps"]).encode()).hexdigest())
+            if len(ctx.samples) < 2 and len(di["steps"]) > 10:
+                ctx.samples.append({"suite": "conc_cl", "setup": nsetup, "programs": progs, "seed": seed, "schedule_head": di["steps"][:14],
+                                    "rets": di["rets"], "final": di["final"]})
+    ctx.cov["failures"] += nfail
+
+
+register(
+    "C03",
+    lean_modules=["EventppVerif.Properties.C03"],
+    suites=[concl_suite],
+    level_text="Lean theorems on the concurrent micro-step model of CallbackList over the pointer model (every schedule, any number of threads): well-formedness of the list after every micro-step, "
+               "linearizability by fixed linearization points (each adding / removing / querying call takes effect in one atomic critical section whose result is the Spec result on the abstract list), "
+               "every traversal step calls a live callback and terminates. Partial: sequential consistency is assumed (the library's intentional unlocked reads are data races by the letter of the "
+               "standard); the exactly-once clause of the visit rule for concurrent traversals is checked on the implementation (oracle), not proved. Correspondence: baton-scheduled runs replayed on the "
+               "model; brute-force linearizability check of every recorded history.",
+    level_note="baton scheduler (one real thread at a time) with the library's own Mutex/Atomic policy hooks and EVENTPP_VERIF_POINT markers; weak-memory effects cannot be exhibited",
+    design_ref="5.3",
+)
